@@ -44,6 +44,7 @@ def body_of(m, t, kind):
 def gen_source(shape):
     """returns (source, tables) ; tables[class index] = ordered list of method ids (reference table)"""
     classes = shape["classes"]
+    mname = shape.get("mname", "f")          # the overloaded method may be a special method (__call__)
     lines = ["from ovld import OvldBase, OvldMC, extend_super, recurse, call_next, ovld", ""]
     mid = 0
     tables = {}
@@ -67,7 +68,7 @@ def gen_source(shape):
                 lines.append("    @extend_super")          # (any one of the same-named definitions may carry the marker)
             elif c.get("deco_at") == di:
                 lines.append("    @ovld(priority=0)")     # an explicitly decorated definition among plain ones
-            lines.append(f"    def f(self, x: {t}):")
+            lines.append(f"    def {mname}(self, x: {t}):")
             lines.append(f"        LOG.append(({mid}, (x,), {{}}, self))")
             lines.append(f"        {body_of(mid, t, kind)}")
             defs[mid] = (t, kind)
@@ -186,7 +187,8 @@ def mro(ci, classes):
 def make_run(W, shape, known_active=None):
     from ovld import Ovld
 
-    key = repr(shape["classes"])
+    key = repr((shape["classes"], shape.get("mname")))
+    mname = shape.get("mname", "f")
     if key not in _SRC:
         src, tables, defs = gen_source(shape)
         fn = f"<symx-c17-{len(_SRC)}>"
@@ -215,18 +217,18 @@ def make_run(W, shape, known_active=None):
             k_ = tab if isinstance(tab, tuple) else tuple(sorted(tab.items(), key=repr))
             if k_ not in refs:
                 if isinstance(tab, tuple):
-                    refs[k_] = type("Holder", (), {"f": ns[f"r{tab[1]}"]})
+                    refs[k_] = type("Holder", (), {mname: ns[f"r{tab[1]}"]})
                 else:
                     # a flat function with the same definitions; per signature the older (pushed-down) ones are registered first
                     ref = Ovld()
                     for (t_, tb_), m in sorted(tab.items(), key=lambda kv: (kv[0][0], kv[0][1])):
                         ref.register(ns[f"r{m}"])
-                    refs[k_] = type("Holder", (), {"f": ref})
+                    refs[k_] = type("Holder", (), {mname: ref})
             holder = refs[k_]()
             for name, a in inputs:
-                got = full_outcome(lambda: inst.f(a), LOG)
+                got = full_outcome((lambda: inst(a)) if mname == "__call__" else (lambda: inst.f(a)), LOG)
                 selfok = all(e[3] is inst for e in LOG)
-                exp = full_outcome(lambda: holder.f(a), LOG)
+                exp = full_outcome((lambda: holder(a)) if mname == "__call__" else (lambda: holder.f(a)), LOG)
                 trace.append(dict(cls=f"C{ci}", arg=name, got=got, reference=exp, self_is_instance=selfok))
                 if got != exp or not selfok or got[1][0] in ("EXC", "LOOP"):
                     ok = False
@@ -262,6 +264,10 @@ def gen_shapes(tier, seed):
                 classes.append(dict(root="plain", bases=[], defs=defs(1, extp), extend=extp))
                 plain_idx = i
                 continue
+            if r > 0.93 and not any(c_["root"] == "base" and not c_["defs"] for c_ in classes):
+                # a second root that does not define the method at all (a base that merely takes part in the class)
+                classes.append(dict(root="base", bases=[], defs=[], extend=False))
+                continue
             cands = [j for j in range(i) if classes[j]["root"] != "plain"]
             b = [rng.choice(cands)]
             if rng.random() < 0.4:
@@ -279,7 +285,7 @@ def gen_shapes(tier, seed):
                 mro(i, classes)
         except TypeError:
             continue
-        shapes.append(dict(n=3, classes=classes))
+        shapes.append(dict(n=3, classes=classes, mname="__call__" if len(shapes) % 5 == 4 else "f"))
     return shapes, N, True
 
 
@@ -301,7 +307,7 @@ def main(tier, seed):
     return runner.finish(
         PID, tier, seed, t0, results,
         bounds=dict(argument_classes=3, user_classes="2-5 per program (OvldBase or metaclass=OvldMC root, subclasses with 1-2 bases, at most one plain "
-                    "mixin class without the metaclass)", definitions="0-3 same-named definitions per class body over K0/K1/K2/object/list (one of them possibly decorated @ovld(priority=0)), "
+                    "mixin class without the metaclass)", method_name="f, or the special method __call__ (every 5th program)", definitions="0-3 same-named definitions per class body over K0/K1/K2/object/list (one of them possibly decorated @ovld(priority=0)), "
                     "extend_super on any one definition of 70% of the subclasses that define the method, of 25% of the roots and 50% of the plain mixin "
                     "classes (nothing to extend: the marker survives and a later class listing it as a non-first base merges it)",
                     bodies="return | call_next(x) | [recurse(a) for a in x] | list(map(recurse, x)) | [recurse(*[a]) for a in x]", probes="every class x {K0(), K1(), K2(), object(), nested list}",
